@@ -236,6 +236,58 @@ fn gen_case(run_seed: u64) -> ProcCase {
     }
 }
 
+/// An instance whose RENDERED size is an exact power of two (or one byte off): block-wise feeders
+/// and readers have their boundaries there. Clauses `1 x 0` over nine variables (satisfiable by
+/// 1 = true); the remainder is absorbed by negative second literals (one byte each).
+fn sized_clauses(target: usize) -> Option<Vec<Vec<i32>>> {
+    // header "p cnf 9 <C>\n", clause "1 x 0\n" = 6 bytes, "1 -x 0\n" = 7 bytes
+    let digits = |c: usize| c.to_string().len();
+    let mut c = target / 6;
+    while c > 0 {
+        let header = 8 + digits(c) + 1;
+        if header + 6 * c <= target {
+            let rem = target - header - 6 * c;
+            if rem <= c {
+                let mut out = Vec::with_capacity(c);
+                for k in 0..c {
+                    let x = 2 + (k % 8) as i32;
+                    out.push(vec![1, if k < rem { -x } else { x }]);
+                }
+                // make sure variable 9 occurs, so that the header says 9
+                out[c - 1] = vec![1, if c - 1 < rem { -9 } else { 9 }];
+                return Some(out);
+            }
+        }
+        c -= 1;
+    }
+    None
+}
+
+fn gen_sized_case(run_seed: u64) -> ProcCase {
+    let mut c = gen_case(run_seed);
+    let mut rng = Rng::sub(run_seed, "sized");
+    let base = *rng.pick(&[4096usize, 8192, 16_384, 32_768, 65_536]);
+    let target = match rng.below(4) {
+        0 => base - 1,
+        1 => base + 1,
+        _ => base,
+    };
+    if let Some(cl) = sized_clauses(target) {
+        c.clauses = cl;
+        c.assumptions = vec![];
+        c.reserve = 0;
+        c.fault = None;
+        c.program = "simchild".into();
+        // pipes large enough to keep the number of scheduling steps moderate
+        c.stdin_capacity = *rng.pick(&[1024usize, 4096, 8192, 65_536]);
+        c.stdout_capacity = c.stdout_capacity.max(256);
+        c.plan.comments_before = c.plan.comments_before.min(20);
+        c.plan.comments_after = c.plan.comments_after.min(20);
+        c.write_chunk = 0;
+    }
+    c
+}
+
 fn gen_query_case(run_seed: u64) -> ProcCase {
     let mut c = gen_case(run_seed);
     let mut rng = Rng::sub(run_seed, "query");
@@ -357,6 +409,10 @@ impl Property for ProcSim {
     fn gen(&self, run_seed: u64, _tier: Tier) -> Value {
         if run_seed % 5 == 0 {
             return serde_json::to_value(gen_query_case(run_seed)).unwrap();
+        }
+        if run_seed % 97 == 1 {
+            // about 1 schedule in 100: an instance rendered to exactly 4 KiB … 64 KiB (or one byte off)
+            return serde_json::to_value(gen_sized_case(run_seed)).unwrap();
         }
         serde_json::to_value(gen_case(run_seed)).unwrap()
     }
